@@ -4,7 +4,7 @@
 # Prints one line per (check, seed); exits non-zero if any run did not exit 0.
 cd "$(dirname "$0")/.."
 seeds="${@:-11 12 13}"
-declare -A runs=( [C02]=8000 [C03]=12000 [C05]=8000 [C06]=4000 [C07]=9000 [C08]=20000 [C11]=100000 [C16]=9000 [C17]=900 [C18]=20000 [C19]=20000 )
+declare -A runs=( [C02]=8000 [C03]=12000 [C05]=8000 [C06]=4000 [C07]=9000 [C08]=20000 [C11]=100000 [C16]=9000 [C17]=900 [C18]=20000 [C19]=60000 )
 O="$(mktemp -d /var/tmp/soak-XXXXXX)"; trap 'rm -rf "$O"' EXIT
 bad=0
 for sd in $seeds; do
